@@ -246,6 +246,7 @@ type ereq struct {
 	Hist      uint64      `json:"hist_interval,omitempty"`
 	AggBy     string      `json:"agg_group_by,omitempty"`
 	AggIv     uint64      `json:"agg_interval,omitempty"`
+	AggField  string      `json:"agg_sum_field,omitempty"` // numeric field: sum/min/max/count per group (two-source aggregation)
 	IDs       [][2]uint64 `json:"ids,omitempty"`
 	Tag       string      `json:"tag,omitempty"`
 	e         *eExpr
@@ -297,7 +298,43 @@ func (c *eCorpus) oracle(q *ereq) []uint64 {
 			a.hist[d.mid-d.mid%q.Hist]++
 		}
 	}
-	if q.Kind == 4 {
+	if q.Kind == 4 && q.AggField != "" {
+		a.sums = map[eAggKey][5]uint64{}
+		val := func(d *edoc, f string) (string, bool) {
+			for _, t := range d.toks {
+				if strings.HasPrefix(t, f+":") {
+					return t[len(f)+1:], true
+				}
+			}
+			return "", false
+		}
+		for _, d := range hit {
+			g, hasG := val(d, q.AggBy)
+			v, hasV := val(d, q.AggField)
+			switch {
+			case !hasG && !hasV:
+			case !hasG:
+				a.notExists++
+			case !hasV:
+				x := a.sums[eAggKey{0, g}]
+				x[4]++
+				a.sums[eAggKey{0, g}] = x
+			default:
+				var n uint64
+				fmt.Sscan(v, &n)
+				x := a.sums[eAggKey{0, g}]
+				if x[0] == 0 || n < x[2] {
+					x[2] = n
+				}
+				if x[0] == 0 || n > x[3] {
+					x[3] = n
+				}
+				x[0]++
+				x[1] += n
+				a.sums[eAggKey{0, g}] = x
+			}
+		}
+	} else if q.Kind == 4 {
 		a.bins = map[eAggKey]uint64{}
 		for _, d := range hit {
 			v, has := "", false
@@ -332,6 +369,7 @@ type eAnswer struct {
 	ids       [][2]uint64
 	hist      map[uint64]uint64
 	bins      map[eAggKey]uint64
+	sums      map[eAggKey][5]uint64 // two-source aggregation: total, sum, min, max, notExists per group
 	notExists uint64
 }
 
@@ -381,7 +419,18 @@ func (a eAnswer) canon(q *ereq) []uint64 {
 			out = append(out, k, a.hist[k])
 		}
 	}
-	if q.Kind == 4 {
+	if q.Kind == 4 && q.AggField != "" {
+		ks := make([]eAggKey, 0, len(a.sums))
+		for k := range a.sums {
+			ks = append(ks, k)
+		}
+		sort.Slice(ks, func(i, j int) bool { return ks[i].tok < ks[j].tok })
+		out = append(out, a.notExists, uint64(len(ks)))
+		for _, k := range ks {
+			x := a.sums[k]
+			out = append(out, eChkBytes([]byte(k.tok)), x[0], x[1], x[2], x[3], x[4])
+		}
+	} else if q.Kind == 4 {
 		ks := make([]eAggKey, 0, len(a.bins))
 		for k := range a.bins {
 			ks = append(ks, k)
@@ -457,6 +506,9 @@ func eAsk(fracs fracmanager.List, m seq.Mapping, q *ereq) (out []uint64, what st
 		WithTotal: q.WithTotal, Hist: q.Hist}
 	if q.Kind == 4 {
 		fq.AggQ = []processor.AggQuery{{GroupBy: eLiteral(q.AggBy), Func: seq.AggFuncCount, Interval: int64(q.AggIv)}}
+		if q.AggField != "" {
+			fq.AggQ = []processor.AggQuery{{Field: eLiteral(q.AggField), GroupBy: eLiteral(q.AggBy), Func: seq.AggFuncSum}}
+		}
 	}
 	qpr, err := fracbuild.Search(fracs, fq, 0)
 	if err != nil {
@@ -478,6 +530,26 @@ func eAsk(fracs fracmanager.List, m seq.Mapping, q *ereq) (out []uint64, what st
 			return []uint64{999999, 4}, ""
 		}
 		a.notExists = uint64(qpr.Aggs[0].NotExists)
+		if q.AggField != "" { // bins of one group token are merged (the not-exists bin carries MID 0, the others the dummy MID)
+			a.sums = map[eAggKey][5]uint64{}
+			for k, v := range qpr.Aggs[0].SamplesByBin {
+				key := eAggKey{0, k.Token}
+				x := a.sums[key]
+				if v.Total > 0 {
+					if x[0] == 0 || uint64(v.Min) < x[2] {
+						x[2] = uint64(v.Min)
+					}
+					if x[0] == 0 || uint64(v.Max) > x[3] {
+						x[3] = uint64(v.Max)
+					}
+					x[0] += uint64(v.Total)
+					x[1] += uint64(v.Sum)
+				}
+				x[4] += uint64(v.NotExists)
+				a.sums[key] = x
+			}
+			return a.canon(q), ""
+		}
 		for k, v := range qpr.Aggs[0].SamplesByBin {
 			if k.Token == "_not_exists" { // legacy duplicate of NotExists
 				continue
@@ -508,6 +580,11 @@ func (c *eCorpus) hist(e *eExpr, from, to, iv uint64, limit int) {
 
 func (c *eCorpus) agg(e *eExpr, from, to uint64, by string, iv uint64) {
 	c.reqs = append(c.reqs, ereq{Kind: 4, Text: e.text(), e: e, From: from, To: to, AggBy: by, AggIv: iv})
+}
+
+// aggSum: sum of the numeric field `field` grouped by `by` (both single-valued in the corpora that use it).
+func (c *eCorpus) aggSum(e *eExpr, from, to uint64, by, field, tag string) {
+	c.reqs = append(c.reqs, ereq{Kind: 4, Text: e.text(), e: e, From: from, To: to, AggBy: by, AggField: field, Tag: tag})
 }
 
 func (c *eCorpus) fetch(tag string, ids ...[2]uint64) {
@@ -844,6 +921,12 @@ func eGenDict16k(r *rng.R, size int) *eCorpus {
 	ndocs := ntok * r.Range(1, 3)
 	for i := 0; i < ndocs; i++ {
 		t := []string{"d:" + toks[i%ntok], fmt.Sprintf("f:v%d", i%9)}
+		if i%7 != 3 { // dd: the same dictionary as d (several physical token blocks), single-valued: group-by field
+			t = append(t, "dd:"+toks[(i*13+5)%ntok])
+		}
+		if i%4 != 1 { // n: numeric, single-valued
+			t = append(t, fmt.Sprintf("n:%d", (i*7)%1000))
+		}
 		if i%5 == 0 {
 			t = append(t, "d:"+toks[(i*31+7)%ntok])
 		}
@@ -904,6 +987,15 @@ func eGenDict16k(r *rng.R, size int) *eCorpus {
 	c.hist(ePre("d", toks[nxt][:2]), lo, hi, 500, 2)
 	c.agg(ePre("d", toks[per-1][:3]), lo, hi, "g", 0)
 	c.agg(ePre("tri", ""), lo, hi, "g", 1000)
+	// group by the fields whose dictionaries span several physical token blocks, over ALL documents: every
+	// TID of the dictionary is mapped back to its value (Table.GetEntryByTID -> Block.GetValByTID)
+	c.agg(eAll(), 0, ^uint64(0)>>1, "dd", 0)
+	c.agg(eAll(), lo, hi, "tri", 0)
+	c.agg(eAll(), lo, hi, "big", 0)
+	c.agg(eAll(), lo, hi, "dd", uint64(ndocs))
+	c.aggSum(eAll(), lo, hi, "dd", "n", "agg-sum-by-dict")
+	c.aggSum(eAll(), lo, hi, "tri", "n", "agg-sum-by-dict")
+	c.aggSum(ePre("d", toks[nxt][:2]), lo, hi, "dd", "n", "agg-sum-by-dict")
 	vocab := map[string][]string{"d": {toks[0], toks[per-1], toks[nxt], toks[ntok/2], toks[ntok-1]}, "f": {"v0", "v1", "v8"}}
 	c.randomRequests(r, 30, vocab, "g")
 	c.fetchRequests(r, 8)
